@@ -62,7 +62,7 @@ func (g *Gen) ok(e Expr) Expr {
 	if c && g.Cfg.ConstOK != nil && !g.Cfg.ConstOK(e) {
 		return nil
 	}
-	if b, isBin := e.(*Binary); isBin && c && (b.L.T().Kind == KMat || b.R.T().Kind == KMat) {
+	if b, isBin := e.(*Binary); isBin && (b.Op == "+" || b.Op == "-" || c) && (b.L.T().Kind == KMat || b.R.T().Kind == KMat) && (IsConst(b.L) || IsConst(b.R)) {
 		if !g.on("const.mat-binary") {
 			return nil
 		}
